@@ -54,6 +54,13 @@ func C11Scenario() *Scenario {
 		s.Progs["cc"].Sync = sp.Sync
 		s.Progs["cc"].Finalize = sp.Finalize
 		b := &EnvBudget{Left: 3 + t.Pick(6, "envbudget")}
+		if t.Pick(3, "foreignfinalizer") == 2 {
+			// somebody else's finalizer keeps a deleted parent alive after ours is gone
+			for _, p := range s.Parents {
+				EditObject(w, p.Res, p.NS, p.Name, "setup", func(o Object) { setPath(o, []interface{}{"example.com/hold-parent"}, "metadata", "finalizers") })
+			}
+			w.Cfg["foreignFinalizer"] = "true"
+		}
 		w.EnvOps = func(w *World) []EnvOp {
 			var ops []EnvOp
 			ops = append(ops, s.ParentEdits(b)...)
@@ -179,12 +186,26 @@ func c11Oracle(w *World, s *Setup) *Violation {
 				}
 				i++
 			}
-			// if the removal failed the sync aborts: nothing to judge
-			if i > 0 && !(seq[i-1].Verb == "update" && accepted(seq[i-1])) {
+			// if the removal failed - as far as metacontroller can tell: an applied write
+			// whose response was lost is a failure, too - the sync aborts: nothing to judge
+			if i > 0 && !(seq[i-1].Verb == "update" && accepted(seq[i-1]) && seq[i-1].Fault == "") {
 				continue
 			}
 			if metaRO(parent)["deletionTimestamp"] != nil {
-				continue // removing the last finalizer deletes the parent: the status write gets NotFound
+				// removing the last finalizer deletes the parent (the status write gets
+				// NotFound); a parent that somebody else's finalizer keeps alive is judged
+				survives := false
+				if i > 0 && seq[i-1].Pre != nil {
+					for _, f := range getList(mustParse(seq[i-1].Pre), "metadata", "finalizers") {
+						if fs, _ := f.(string); fs != "" && fs != s.Cfg.FinalizerName() {
+							survives = true
+						}
+					}
+				}
+				if !survives {
+					continue
+				}
+				w.Probe("c11:finalized-parent-kept-alive-by-foreign-finalizer")
 			}
 		}
 		seq = seq[i:]
